@@ -1,9 +1,36 @@
+mod c10;
+mod c11;
 mod c20;
+mod hostrun;
 
 use vkit::Property;
 
 fn main() {
-    vkit::main(vec![Property {
+    vkit::main(vec![
+    Property {
+        id: "C10",
+        level: "fault_enumeration",
+        rule: "proptest: a generated workload of 3-16 operations (durable-ack submissions of intents carrying data-driven programs, retries, ticketed staging, scheduler ticks) over 1-2 worldlines runs on a TrustedRuntimeHost with a filesystem runtime WAL and an installed contract package whose handler interprets the program; after every operation the harness records the acknowledged facts (per submission the observed outcome incl. receipt reference, per worldline frontier tick, state root and the (commit id, state root, patch digest) chain), the global tick, the segment length, the commit count and copies of the side files (writer-epoch ledger, manifest). Crash enumeration: (1) recover_wal_segment_bytes in ReadOnly and Writable mode on the prefix of EVERY byte length (segments <= 1500 bytes or thorough tier; otherwise every record boundary +-{0,1,2,9,17,18}, 400 evenly spaced lengths and sampled points): must succeed, return exactly the transactions whose commit marker lies wholly below the cut (boundaries computed by the harness from the documented record framing, not by repo code), with a Clean tail exactly at transaction boundaries; (2) a fresh host opened on a copy of the directory cut at every transaction boundary +-1, at frame boundaries and mid-frame points and at sampled lengths, each combined with the side-file versions before and after the operation that spans the cut: recovery succeeds, runs no rule (executor counter), recovers exactly the committed prefix, every fact acknowledged at that prefix with identical submission ids, outcomes, receipt references, state roots, chains and global tick, later submissions are Unknown, two read-only recoveries and a second open agree (indexes root), certificate count and recomputed indexes root agree; then volatile staging is re-issued and the rest of the script runs: final facts equal the uninterrupted run's, every earlier envelope is answered duplicate with the same id and appends nothing. Store faults: FilesystemWalFaultPlan (AppendFrame, FlushCommit, CommitMarkerSynced, PublishManifest) injected before a generated operation: a failing call leaves facts and the Debug rendering of runtime and provenance identical to before the call; the directory as the failed host left it recovers to the prefix its commit markers define, with the matching facts, and continues to the uninterrupted run's final facts. Non-trivial = a cut strictly inside a record that follows a committed transaction.",
+        assumptions: &[
+            "a crash leaves the segment file as a byte prefix and atomically renamed side files as an old or new version; reordered sector writes and torn renames are not modelled",
+            "segment rotation does not occur for these workloads (cases with more than one segment file are skipped and counted)",
+            "an operation the live host refuses ends the workload at that point (counted as a class)",
+        ],
+        subs: c10::subs,
+        max_shards: 16,
+    },
+    Property {
+        id: "C11",
+        level: "fault_enumeration",
+        rule: "proptest: logs produced by the C10 workload generator (a real host with a filesystem runtime WAL and the data-driven contract package; 4-14 operations) plus a second log from another workload. 24-48 generated mutations per case, each applied to the committed segment or its side files: single-bit flips, byte overwrites, aligned zeroing of 1/4/8/32/64 bytes, and - using the harness's own parser of the documented record framing - deletion, duplication and adjacent swap of single disk records, removal and duplication of whole transactions, transplant (insert or replace) of a transaction from the second log, bit flips in the writer-epoch ledger and manifest; plus EVERY single-bit flip of the segment for logs <= 1200 bytes (quick) / <= 8 KiB (thorough) through the byte-level reader. Each mutant is given to recover_wal_segment_bytes (ReadOnly and Writable), recover_filesystem_store and doctor_filesystem_store on a materialised directory, and (every third mutant in quick, every mutant in thorough) a fresh TrustedRuntimeHost. Oracle per reader: a typed error / refusal, or Ok with a history that is transaction-by-transaction, frame-by-frame a PREFIX of the committed history (compared with the history recovered from the untouched log); a host that activates must additionally hold exactly the facts acknowledged at that prefix; a panic is a violation. Accepted prefixes are tallied per mutation kind. Non-trivial = damage inside a committed, non-final transaction.",
+        assumptions: &[
+            "truncation is C10's subject; a damaged FINAL transaction may lawfully be treated as a torn tail (prefix rule)",
+            "the doctor is required not to panic and not to report more committed history than exists; its posture vocabulary is tallied, not judged",
+        ],
+        subs: c11::subs,
+        max_shards: 16,
+    },
+    Property {
         id: "C20",
         level: "fault_enumeration",
         rule: "proptest stateful model tests: random op sequences (put, verified put with right / wrong / foreign / already-stored hash, get, has, pin, unpin, reopen, list) over a pool of 10 blobs of unequal lengths against a reference BTreeMap + pin set, for MemoryTier (through BlobStore) and DiskTier (fresh scratch directory per case, reopened mid-sequence), with the full state compared after every step. Fault enumeration on DiskTier's backing files: for every stored file generated byte flips, every truncation length (all cuts for blobs <= 40 bytes, 40 evenly spaced cuts beyond), extension, replacement by another blob's bytes, deletion, restore by verified put, stray temp file; oracle: get is the exact content, absent, or a typed HashMismatch - never other bytes; unrelated blobs unaffected; list ignores temp files. RetainedBlobIndex against Map<coordinate, bytes> with coordinates that differ in exactly one field, a lossy BlobStore wrapper (missing material), load / load_range with generated offsets, lengths and budgets. Non-trivial = a wrong-hash verified put or a reopen after a put (tiers); >=2 stored files (faults); a coordinate conflict or two coordinates with equal content (retention).",
@@ -13,5 +40,6 @@ fn main() {
         ],
         subs: c20::subs,
         max_shards: 16,
-    }])
+    },
+    ])
 }
